@@ -6,7 +6,7 @@ from math import isqrt, comb
 from hypothesis import strategies as st
 
 from vlib.core import SubCheck, Violation, Outcome
-from vlib import tt, names, sat
+from vlib import tt, names, sat, cli
 from vlib import graphs_gen as gg
 from checks.c01 import formula_class, expect_indices
 
@@ -712,3 +712,15 @@ SUBCHECKS = [
              rule="PythagoreanTriples(N) N in 0..120 (400); oracle: clause set == triples found with integer isqrt; model count for N<=22; non-trivial: N>=5",
              required_labels=['has-triples', 'counted']),
 ]
+
+
+# ---------------------------------------------------------------------------
+# the same cases after other work in the same process
+
+from vlib import after as _after   # noqa: E402
+
+SUBCHECKS.append(_after.make(SUBCHECKS, inner=['op', 'op', 'op', 'peb', 'stone', 'cpls', 'ramsey', 'vdw', 'ptn'],
+                             as_prefix=['op', 'peb', 'stone', 'ramsey', 'vdw'],
+                             special=lambda case, out: ['edited-K_n-then-op'] if (case['sub'] == 'op' and 'complete' in (out.labels or []) and any(
+                                 a[0] == 'complete' and a[2] != 'name' for a in case['prefix'])) else [],
+                             required_labels=['edited-K_n-then-op', 'after:cli', 'after:dag', 'after:case', 'then:peb', 'then:op']))
